@@ -194,7 +194,7 @@ def _dead_result(kind, detail):
     return {'status': kind, 'detail': detail, 'states': 0, 'transitions': 0, 'validated': 0, 'nontrivial': False, 'outcome': None}
 
 
-def run_pool(name, items, results, budget, scratch_root, jobs, maxtasks=None):
+def run_pool(name, items, results, budget, scratch_root, jobs, maxtasks=None, deadline=None):
     import collections
     from multiprocessing.connection import wait
     ctx = multiprocessing.get_context('fork')
@@ -212,6 +212,12 @@ def run_pool(name, items, results, budget, scratch_root, jobs, maxtasks=None):
     remaining = len(items)
     try:
         while remaining:
+            if deadline is not None and pending and time.time() > deadline:
+                # overall wall cap (VERIF_WALL / --wall): items not started are reported as not run, never as held
+                for i in pending:
+                    results[i] = dict(_dead_result('skip', 'not started: overall wall cap reached'), skip='not_run_wall_cap')
+                remaining -= len(pending)
+                pending.clear()
             for w in workers:
                 if w['idx'] is None and pending:
                     i = pending.popleft()
@@ -306,7 +312,7 @@ def budget_of(mod, tier):
     return b
 
 
-def run_check(name, tier, seed, jobs=None, max_replays=12, limit=None, triage=False):
+def run_check(name, tier, seed, jobs=None, max_replays=12, limit=None, triage=False, wall=None):
     mod = load_check(name)
     prop = mod.PROP
     t0 = time.time()
@@ -325,7 +331,7 @@ def run_check(name, tier, seed, jobs=None, max_replays=12, limit=None, triage=Fa
             os.chdir(ROOT)
         else:
             run_pool(name, items, results, budget, scratch_root, min(jobs, max(1, len(items))),
-                     getattr(mod, 'MAXTASKS', None))
+                     getattr(mod, 'MAXTASKS', None), deadline=(t0 + wall) if wall else None)
     finally:
         shutil.rmtree(scratch_root, ignore_errors=True)
 
@@ -423,7 +429,9 @@ def run_check(name, tier, seed, jobs=None, max_replays=12, limit=None, triage=Fa
         'states': states, 'transitions': transitions, 'traces_validated_against_impl': validated,
         'samples': samples,
         'evaluations': len(items), 'distinct_nontrivial': len(nontrivial),
-        'rule': mod.RULE, 'exhaustive': bool(getattr(mod, 'EXHAUSTIVE', True)) and counts['timeout'] == 0,
+        'rule': mod.RULE,
+        'exhaustive': bool(getattr(mod, 'EXHAUSTIVE', True)) and counts['timeout'] == 0 and not skips.get('not_run_wall_cap'),
+        'overall_wall_cap_s': wall, 'items_not_run_wall_cap': skips.get('not_run_wall_cap', 0),
         'items_ok': counts['ok'], 'items_violating': counts['violation'], 'items_skipped': counts['skip'],
         'items_timeout': counts['timeout'], 'items_worker_died': counts.get('crash', 0), 'skip_reasons': skips,
         'distinct_outcomes': len(outcomes),
